@@ -776,3 +776,48 @@ Proof.
   rewrite run_norec in H; [discriminate|]. apply existsb_firstn. rewrite Eb.
   rewrite !existsb_app, restore_steps_norec, manifest_restore_steps_norec, delete_steps_norec. reflexivity.
 Qed.
+
+(* ---------- the two phases of an interrupted apply ----------
+   A prefix of the operation sequence either lies within the change phase — then only planned
+   paths have been touched — or contains the whole change phase — then every path that is not a
+   root's manifest already holds its final content. *)
+Lemma ntouch_firstn_le p k steps : (ntouch p (firstn k steps) <= ntouch p steps)%nat.
+Proof.
+  unfold ntouch. rewrite <- (firstn_skipn k steps) at 2. rewrite filter_app, app_length. lia.
+Qed.
+
+Lemma crash_phase f0 roots D pl k :
+  let st := run_prefix k (steps_of_apply f0 roots D pl) (init_state f0) in
+  (forall q, (forall c, In c pl -> c_path c <> q) -> cfiles st q = f0 q) \/
+  (forall p, (forall r, In r roots -> mf_path r <> p) -> cfiles st p = fold_left apply_change pl f0 p).
+Proof.
+  cbv zeta. unfold run_prefix, steps_of_apply. rewrite firstn_app_run.
+  set (st1 := run (firstn k [KMk LSnapDir; KMk LBackupRoot; KMk LStateRoot]) (init_state f0)).
+  assert (Ha1 : agrees st1 f0).
+  { intros q. unfold st1. destruct k as [|[|[|k]]]; cbn [firstn]; try reflexivity. rewrite firstn_nil. reflexivity. }
+  set (k1 := (k - length [KMk LSnapDir; KMk LBackupRoot; KMk LStateRoot])%nat).
+  rewrite firstn_app_run.
+  destruct (Nat.le_gt_cases (length (change_steps f0 pl)) k1) as [Hk|Hk].
+  - (* the whole change phase is in the prefix *)
+    right. intros p Hp. rewrite (firstn_all2 (change_steps f0 pl)) by exact Hk.
+    pose proof (run_change_steps pl f0 st1 Ha1) as Ha2.
+    rewrite run_untouched; [apply Ha2|].
+    assert (H0 : ntouch p (manifest_steps 0 roots roots D pl (fold_left apply_change pl f0) ++ state_steps D ++
+                            write_atomic_steps LSnapDir LRecord record_content) = 0%nat).
+    { rewrite !ntouch_app, state_steps_ntouch, ntouch_write_atomic_home by (intros q; discriminate).
+      pose proof (manifest_steps_ntouch p roots 0 roots D pl (fold_left apply_change pl f0)) as Hm.
+      assert (Hf : filter (fun r => path_eqb (mf_path r) p) roots = []).
+      { apply filter_nil_iff. intros r Hr. apply path_eqb_neq. apply Hp. exact Hr. }
+      rewrite Hf in Hm. simpl in Hm. lia. }
+    pose proof (ntouch_firstn_le p (k1 - length (change_steps f0 pl)) (manifest_steps 0 roots roots D pl (fold_left apply_change pl f0) ++ state_steps D ++
+                            write_atomic_steps LSnapDir LRecord record_content)) as Hle.
+    lia.
+  - (* the prefix ends inside the change phase *)
+    left. intros q Hq. replace (k1 - length (change_steps f0 pl))%nat with 0%nat by lia. simpl.
+    rewrite run_untouched; [apply Ha1|].
+    pose proof (change_steps_ntouch q pl f0) as Hc.
+    assert (Hf : filter (at_path q) pl = []).
+    { apply filter_nil_iff. intros c Hc'. unfold at_path. apply path_eqb_neq. apply Hq. exact Hc'. }
+    rewrite Hf in Hc. simpl in Hc.
+    pose proof (ntouch_firstn_le q k1 (change_steps f0 pl)). lia.
+Qed.
